@@ -1,10 +1,16 @@
 package main
 
+// extraGens is filled by files that need the verif build tag (regex.go).
+var extraGens []struct {
+	file string
+	fn   func(string) string
+}
+
 func moreGens() []struct {
 	file string
 	fn   func(string) string
 } {
-	return []struct {
+	return append([]struct {
 		file string
 		fn   func(string) string
 	}{
@@ -12,5 +18,5 @@ func moreGens() []struct {
 		{"GenRecover.v", genRecover},
 		{"GenConsts.v", genConsts},
 		{"GenReticular.v", genReticular},
-	}
+	}, extraGens...)
 }
